@@ -1,7 +1,97 @@
-(* Observation commands: filled in by the corresponding property work; definitions only. *)
+(* Observation commands of the metadata domain (C17): m.from_raw, m.from_email.  Definitions only.
+   Imports the model and the generated table, never the lemma files.
+
+   Arguments are tokens, one per argument; the first character is the tag:
+     T | F            validate flag (first argument)
+     K<key>           next dict entry            S<text>  its value is a str
+     L                its value is a list        I<text>  append an item to that list
+     D                its value is a dict        P<label> Q<url>   append (label, url) to that dict
+     U<key>           a key of the `unparsed` dict (from_email)
+     o<c><text>       oracle entry of component c for the string <text>; c = 0 SpecifierSet, 1 Requirement, 2 licence expression,
+                      3 EmailMessage content type, 4 pathlib tests;  without a following v-token the component rejects the string
+     v<text>          the component accepts, <text> = str(result) (component 3: get_content_type(); component 4: unused)
+     c<text> w<text>  component 3: params["charset"], params["variant"] when present
+     R<field>         read that attribute (after construction) *)
 From Coq Require Import List NArith Bool String.
 Import ListNotations.
-Require Import Show.
+Require Import Show MetaTable MetaBase MetaShow MetaModel.
 Open Scope N_scope.
 
-Definition run_meta (cmd : list N) (args : list (list N)) : option (list N) := None.
+Record oentry := { oe_comp : N; oe_key : list N; oe_v : option (list N); oe_c : option (list N); oe_w : option (list N) }.
+Record pstate := { p_data : list (list N * rawv); p_label : list N; p_unparsed : list (list N); p_or : list oentry; p_reads : list (list N) }.
+Definition p0 := {| p_data := []; p_label := []; p_unparsed := []; p_or := []; p_reads := [] |}.
+
+(* p_data and p_or are built in reverse (head = current entry) *)
+Definition set_head (st : pstate) (f : rawv -> rawv) : pstate :=
+  match p_data st with
+  | (k, v) :: t => {| p_data := (k, f v) :: t; p_label := p_label st; p_unparsed := p_unparsed st; p_or := p_or st; p_reads := p_reads st |}
+  | [] => st
+  end.
+Definition set_or (st : pstate) (f : oentry -> oentry) : pstate :=
+  match p_or st with
+  | e :: t => {| p_data := p_data st; p_label := p_label st; p_unparsed := p_unparsed st; p_or := f e :: t; p_reads := p_reads st |}
+  | [] => st
+  end.
+Definition tok_step (st : pstate) (tok : list N) : pstate :=
+  match tok with
+  | [] => st
+  | tag :: body =>
+      if tag =? 75 then {| p_data := (body, VStr []) :: p_data st; p_label := []; p_unparsed := p_unparsed st; p_or := p_or st; p_reads := p_reads st |}
+      else if tag =? 83 then set_head st (fun _ => VStr body)
+      else if tag =? 76 then set_head st (fun _ => VList [])
+      else if tag =? 73 then set_head st (fun v => match v with VList l => VList (l ++ [body]) | x => x end)
+      else if tag =? 68 then set_head st (fun _ => VDict [])
+      else if tag =? 80 then {| p_data := p_data st; p_label := body; p_unparsed := p_unparsed st; p_or := p_or st; p_reads := p_reads st |}
+      else if tag =? 81 then set_head st (fun v => match v with VDict d => VDict (d ++ [(p_label st, body)]) | x => x end)
+      else if tag =? 85 then {| p_data := p_data st; p_label := p_label st; p_unparsed := p_unparsed st ++ [body]; p_or := p_or st; p_reads := p_reads st |}
+      else if tag =? 111 then
+        match body with
+        | c :: key => {| p_data := p_data st; p_label := p_label st; p_unparsed := p_unparsed st;
+                         p_or := {| oe_comp := c - 48; oe_key := key; oe_v := None; oe_c := None; oe_w := None |} :: p_or st; p_reads := p_reads st |}
+        | [] => st
+        end
+      else if tag =? 118 then set_or st (fun e => {| oe_comp := oe_comp e; oe_key := oe_key e; oe_v := Some body; oe_c := oe_c e; oe_w := oe_w e |})
+      else if tag =? 99 then set_or st (fun e => {| oe_comp := oe_comp e; oe_key := oe_key e; oe_v := oe_v e; oe_c := Some body; oe_w := oe_w e |})
+      else if tag =? 119 then set_or st (fun e => {| oe_comp := oe_comp e; oe_key := oe_key e; oe_v := oe_v e; oe_c := oe_c e; oe_w := Some body |})
+      else if tag =? 82 then {| p_data := p_data st; p_label := p_label st; p_unparsed := p_unparsed st; p_or := p_or st; p_reads := p_reads st ++ [body] |}
+      else st
+  end.
+Definition parse_tokens (toks : list (list N)) : pstate := fold_left tok_step toks p0.
+
+Definition find_or (tbl : list oentry) (c : N) (s : list N) : option oentry :=
+  find (fun e => (oe_comp e =? c) && seqb (oe_key e) s) tbl.
+Definition or_text (tbl : list oentry) (c : N) (s : list N) : option (list N) :=
+  match find_or tbl c s with Some e => oe_v e | None => None end.
+Definition oracles_of (tbl : list oentry) : oracles :=
+  {| o_specset := or_text tbl 0; o_req := or_text tbl 1; o_lic := or_text tbl 2;
+     o_ctype := fun s => match find_or tbl 3 s with
+                         | Some e => match oe_v e with Some ct => Some (ct, (oe_c e, oe_w e)) | None => None end
+                         | None => None end;
+     o_path := fun s => negb (is_some (or_text tbl 4 s)) |}.
+
+(* ---- rendering (MetaShow.v): a string is its code points, "104.105"; list [a,b]; dict {k:v,...}; None N *)
+Definition show_enr (e : enr) : list N :=
+  match e with ENone => asc "N" | EStr s => show_s s | EList l => show_list l | EDict d => show_dict d end.
+Definition show_res (r : res) : list N :=
+  match r with Ok e => show_enr e | Invalid f => asc "E:" ++ f | Crash c => asc "!EXC:" ++ c end.
+
+Definition show_fr (O : oracles) (r : frres) (rs : list (list N)) : list N :=
+  match r with
+  | FOk s => join bar (asc "OK" :: map show_res (reads O s rs))
+  | FGroup fs => asc "G:" ++ join [44] (sort_s fs)
+  | FCrash c => asc "!EXC:" ++ c
+  end.
+
+Definition obs_from_raw (args : list (list N)) : list N :=
+  let st := parse_tokens (tl args) in
+  let O := oracles_of (p_or st) in
+  show_fr O (from_raw O (parse_bool (nth_str 0 args)) (rev (p_data st))) (p_reads st).
+Definition obs_from_email (args : list (list N)) : list N :=
+  let st := parse_tokens (tl args) in
+  let O := oracles_of (p_or st) in
+  show_fr O (from_email O (parse_bool (nth_str 0 args)) (rev (p_data st)) (p_unparsed st)) (p_reads st).
+
+Definition run_meta (cmd : list N) (args : list (list N)) : option (list N) :=
+  if seqb cmd (asc "m.from_raw") then Some (obs_from_raw args)
+  else if seqb cmd (asc "m.from_email") then Some (obs_from_email args)
+  else None.
